@@ -280,4 +280,11 @@ def c18_6(c: Ctx) -> None:
     c01_7(c)
 
 
+@ob('C18.7', 'COHERENCE', "a memo in front of the handler lookup is kept coherent with the handler registry (same obligation as C01.13): the removal of expect()'s temporary handler must invalidate it, otherwise the bus keeps delivering events to an expect() that has ended")
+def c18_7(c: Ctx) -> None:
+    from .c01 import check_memo_coherence
+
+    check_memo_coherence(c)
+
+
 OBLIGATIONS = ob.obs
